@@ -6,10 +6,13 @@ CONSTANTS
   J = 250
   MaxLen = 0
   Record = FALSE
+  Retain = TRUE
 INIT TraceInit
 NEXT TraceNext
 VIEW TraceView
 CONSTRAINT HighWater
+\* RetainedOwn / OneResultPerCall / IdsDistinct are stated at the hand-out in ResultsAreValuesStep (TraceClauses) and in the
+\* guard of Post: as invariants they are quadratic in the length of a process history
 INVARIANTS TraceTypeOK CtxResult
 PROPERTIES TraceClauses
 POSTCONDITION TraceAccepted
